@@ -40,7 +40,7 @@ impl MemfsFile {
         ensures r as int == remaining(self), //@ clause len.post [C07]
 //@ body
 
-//@ item sync file=src/sys/fs/memfs/file.rs block="impl MemfsFile" fn=sync props=C07,C06,C03,C12
+//@ item sync file=src/sys/fs/memfs/file.rs block="impl MemfsFile" fn=sync props=C07,C06,C03,C12,C20
 //@ sig pub(crate) fn sync(&mut self) -> io::Result<()>
 //@ rw R11 1 ⟦let mut guard = fs.write_guard();⟧ => ⟦⟧
 //@ rw R4 * ⟦f.data.clone_from(&self.data);⟧ => ⟦vec_clone_from(&mut f.data, &self.data);⟧
